@@ -314,8 +314,11 @@ Definition star_free (p : path) : bool := forallb (fun x => negb (is_star x)) p.
 Definition write (h : hyps) (st : state) (w : nat) (o : wop) : option (state * wres) :=
   match o with
   | WUpd p v ts =>
-      (* outside the model: no target, or a path element named "*" *)
-      if negb (target_ok p && star_free p) then None else
+      (* outside the model: no target, a path element named "*", or the BARE target path
+         (cache.gnmiUpdate rejects an empty index path since 30e1165: no leaf can sit at
+         [target]; paths under meta are written by the cache itself and are outside the
+         generator's scope) *)
+      if negb (target_ok p && star_free p && negb (Nat.eqb (List.length p) 1)) then None else
       if h_agree h && negb (agree_on st p) then None else
       match tlookup p (st_tree st) with
       | Some l =>
